@@ -177,6 +177,20 @@ Theorem C09_values_in_frame : forall V T vser cols r cells cd alg tr id m p f,
                row_binds V T vser cols r (qp_values p') /\ row_complete V T cols r.
 Proof. exact values_in_frame. Qed.
 
+(* The abstract value codec instantiated with C01's (Model/Cql.v): for rows of CqlValues bound
+   through Cql.ser_value, every [value] the frame carries is C01's encoding (Cql.ser_cell -- the
+   subject of C01_conforms / C01_roundtrip), for the marker's column type, of the value the caller
+   supplied for that marker; and the five carriers of the tie's typed rows (mini_ser) ARE that codec. *)
+Theorem C09_values_are_C01 : forall cols r cells blob,
+  bind_row Cql.cell Cql.ctype c01_vser cols r = Ok cells -> ser_cells cells = Some blob ->
+  List.length cells = List.length cols /\
+  forall i name t, nth_error cols i = Some (name, t) ->
+    exists c rc wire, supplied Cql.cell r i name = Some c /\ nth_error cells i = Some rc /\
+                      ser_cell rc = Some wire /\ Cql.ser_cell t c = Ok wire.
+Proof. exact values_are_C01. Qed.
+Theorem C09_mini_ser_is_C01 : forall v t, mini_ser v t = c01_vser (mval_cell v) (mty_ctype t).
+Proof. exact mini_ser_is_C01. Qed.
+
 (* ---- non-vacuity: concrete requests meeting the hypotheses, with non-trivial outputs ---- *)
 Definition ex_codec : codec :=
   mkCodec (fun b => b) (fun b _ => Some b) (fun b => Some b) (fun b => Some b).
@@ -280,7 +294,12 @@ Example C09_anchor_parser :
   parse_frame ex_codec None false [4; 0; 0; 0; 13; 0; 0; 0; 6; 3; 0; 0; 0; 1; 0] = Err PBadBatchType /\
   parse_frame ex_codec None false [4; 0; 0; 0; 13; 0; 0; 0; 4; 0; 0; 1; 2] = Err PBadStatementKind /\
   parse_frame ex_codec None false [4; 0; 0; 0; 13; 0; 0; 0; 6; 0; 0; 0; 0; 1; 64] = Err PBadBatchFlags /\
-  parse_frame ex_codec None false [4; 0; 0; 0; 11; 0; 0; 0; 5; 0; 1; 0; 1; 88] = Err PBadEvent.
+  parse_frame ex_codec None false [4; 0; 0; 0; 11; 0; 0; 0; 5; 0; 1; 0; 1; 88] = Err PBadEvent /\
+  (* [long string] / [string] must be UTF-8 (a truncated 2-byte sequence; 0xff); [short bytes] need not *)
+  parse_frame ex_codec None false [4; 0; 0; 0; 7; 0; 0; 0; 8; 0; 0; 0; 1; 195; 0; 6; 0] = Err PBadUtf8 /\
+  parse_frame ex_codec None false [4; 0; 0; 0; 1; 0; 0; 0; 7; 0; 1; 0; 1; 255; 0; 0] = Err PBadUtf8 /\
+  parse_frame ex_codec None false [4; 0; 0; 0; 10; 0; 0; 0; 6; 0; 1; 255; 0; 6; 0]
+  = Ok (mkHeader 4 0 0 10 6, Execute [255] None (mkQP LocalQuorum None None None None false [])).
 Proof. repeat split; vm_compute; reflexivity. Qed.
 Example C09_anchor_frame_says :
   frame_says ex_codec None false 0 ex_plain_query ex_plain_frame = true /\
@@ -310,6 +329,14 @@ Example C09_anchor_predicates :
 Proof. repeat split; vm_compute; reflexivity. Qed.
 
 Definition ex_cols : list (bytes * mty) := [([97], TInt); ([98], TText); ([97], TInt)].   (* a, b, a *)
+Example C09_anchor_C01 :
+  c01_vser (Cql.CVal (Cql.CInt 7)) (Cql.TNative Cql.NInt) = Some (CVal [0; 0; 0; 7]) /\
+  c01_vser (Cql.CVal (Cql.CInt 7)) (Cql.TNative Cql.NText) = None /\
+  c01_vser (Cql.CVal (Cql.CList [Cql.CInt 1; Cql.CInt 2])) (Cql.TList (Cql.TNative Cql.NInt))
+  = Some (CVal [0; 0; 0; 2; 0; 0; 0; 4; 0; 0; 0; 1; 0; 0; 0; 4; 0; 0; 0; 2]) /\
+  bind_row Cql.cell Cql.ctype c01_vser [([97], Cql.TNative Cql.NInt); ([98], Cql.TNative Cql.NText)]
+    (RMap [([98], Cql.CVal (Cql.CText [120])); ([97], Cql.CNull)]) = Ok [CNull; CVal [120]].
+Proof. repeat split; vm_compute; reflexivity. Qed.
 Example C09_anchor_rows :
   (* by name, map order irrelevant, a repeated marker name gets the same value twice *)
   bind_row mval mty mini_ser ex_cols (RMap [([98], MText [120]); ([97], MInt 7)])
@@ -349,3 +376,5 @@ Print Assumptions C09_values_in_order.
 Print Assumptions C09_bind_row_total.
 Print Assumptions C09_row_count_mismatch.
 Print Assumptions C09_values_in_frame.
+Print Assumptions C09_values_are_C01.
+Print Assumptions C09_mini_ser_is_C01.
